@@ -540,13 +540,23 @@ def rule_j(ctx, idx, A, errcls):
         """every way through the handler body leaves by raising what was caught (or by ending the process, for the command-line tool)"""
         nm = h.name
 
+        def substitutes(stmts):
+            """some path through these statements raises ANOTHER error in place of the one caught (raise X(...), raise_from(X(...), e))"""
+            for st in stmts:
+                for x in ast.walk(st):
+                    if isinstance(x, ast.Raise) and x.exc is not None and not (isinstance(x.exc, ast.Name) and x.exc.id == nm):
+                        return x
+                    if isinstance(x, ast.Call) and K.src(x.func).split(".")[-1] == "raise_from":
+                        return x
+            return None
+
         def leaves(stmts):
             for st in stmts:
                 if isinstance(st, ast.Raise) and (st.exc is None or (isinstance(st.exc, ast.Name) and st.exc.id == nm)):
                     return True
                 if isinstance(st, ast.If) and isinstance(st.test, ast.Call) and K.src(st.test.func) == "isinstance" and st.test.args and K.src(st.test.args[0]) == nm \
                         and any(K.src(t).split(".")[-1] in ADMIT - {"BaseException", "Exception"} for t in (st.test.args[1].elts if isinstance(st.test.args[1], ast.Tuple) else [st.test.args[1]])) \
-                        and leaves(st.body):
+                        and leaves(st.body) and substitutes(st.body) is None:
                     return True  # the MPilot errors (the recursive-model error among them) go on as they are; what follows deals with the others
                 if isinstance(st, ast.If) and st.orelse and leaves(st.body) and leaves(st.orelse):
                     return True
@@ -650,6 +660,19 @@ def run(ctx, idx):
 
     rule_e(ctx, idx, A, rule="C14.e", text="Restated here because the re-entry guard can only fire on a reference that is actually read: a cycle closed through an input the consumer skips (a zero weight, a short-circuit over the list) is never entered and the cyclic model runs to completion.")
     rule_j(ctx, idx, A, errcls)
+    ctx.rule("C14.k", "Validation starts no command: a cleaner reads `<value>.result` (or calls run / execute) only on the true side of a test of the finished flag (C12.b's reading). Command.run validates its arguments before the in-progress flag is set, so a cleaner that evaluates an unfinished reference re-enters run() around the guard - on a loop of such commands the interpreter runs out of stack instead of reporting the recursive model.")
+    pbase_ = idx.cls("mpilot.params", "Parameter")
+    for ci_ in idx.subclasses(pbase_):
+        fi_ = ci_.methods.get("clean")
+        if fi_ is None:
+            continue
+        c_ = K.cfg_of(idx, fi_)
+        touches_ = c_.find("load", lambda n: n.meta.get("attr") in ("result", A.memo)) + c_.find("call", lambda n: isinstance(n.ast.func, ast.Attribute) and n.ast.func.attr in ("run", "execute"))
+        for tn_ in touches_:
+            guards_ = [t for t in c_.find("test") if isinstance(t.ast, ast.Attribute) and t.ast.attr == A.flag and c_.dominates(t, tn_)]
+            ok_ = any(tn_ not in c_.reachable([m for m, l in g.succ if l == "false"], avoid={g}) for g in guards_)
+            ctx.ob("C14.k", "%s::touch(%s)" % (fi_.key, K.src(tn_.ast)[:40]), K.rel(fi_), tn_.line, ok_,
+                   "only under `%s` known true" % A.flag if ok_ else "`%s` is evaluated during validation for a command that may be unfinished: validation re-enters run() outside the in-progress guard, and a reference loop recurses until the stack overflows" % K.src(tn_.ast))
     ctx.count("functions", len(idx.funcs))
     if deferred is not None:
         raise deferred
